@@ -397,3 +397,47 @@ CLAIMS = {
                'await-discipline lint over resolved callees',
  },
 }
+
+# round 8 additions (appended so that the history of each claim stays visible)
+_ROUND8 = {
+ 'C02': ' Also: every bytes leaf travels as its own attachment, numbered by '
+        'the appends made so far (shared C01.R3) - equal or repeated blobs '
+        'are not merged.',
+ 'C04': ' Also: exception names that coincide with builtins '
+        '(ConnectionRefusedError, ConnectionError) resolve, through the '
+        'imports of the server modules, to the package\'s classes.',
+ 'C06': ' Also: a refused connection releases the client on every refusing '
+        'path, for both settings of always_connect (shared C04.R4) - the '
+        'release is what drops callbacks a connect handler left '
+        'outstanding; the remove-and-get idioms of trigger_callback are '
+        'recognised and an unguarded callbacks[sid] is reported.',
+ 'C07': ' Also: channel codec agreement - the listener\'s own decode of '
+        'channel bytes is the unrestricted inverse of the publishers\' '
+        'pickle.dumps (no Unpickler subclass overriding find_class / '
+        'persistent_load on the listener\'s path).',
+ 'C10': ' Also: both ways an attempt fails (ConnectionError, ValueError) '
+        'are followed, and the attempt limit is consulted between any two '
+        'consecutive attempts; ConnectionError / TimeoutError named in the '
+        'client modules are the package\'s classes, not the builtins.',
+ 'C11': ' Also: sets and lists created empty in the constructors are '
+        'derived per-client tables as well (composite keys containing the '
+        'transport id); a release that exists only inside a loop does not '
+        'cover the path on which the loop runs zero times.',
+ 'C12': ' Also: the msgpack decoder is called without max_* limits, or '
+        'with limits computed from len(frame) - msgpack\'s default bounds '
+        'every declared length by the bytes received.',
+ 'C14': ' A synchronous private helper that both twins inherit is inlined '
+        'on both sides (second attempt) before drift is reported.',
+ 'C15': ' Also: a callback message for an unknown client or id changes no '
+        'manager state (shared C06.R1; setdefault counts as a write) - an '
+        'empty callbacks[sid] left behind makes every later '
+        'emit-with-callback for that client fail in the listener.',
+ 'C18': ' Also: the refusal raised by admin_connect is the package\'s '
+        'ConnectionRefusedError (resolved through the module\'s imports), '
+        'the class the server\'s connect path catches - not the builtin of '
+        'the same name.',
+ 'C19': ' Also: TimeoutError / DisconnectedError raised by the simple '
+        'clients resolve to the package\'s classes.',
+}
+for _k, _v in _ROUND8.items():
+    CLAIMS[_k]['text'] += _v
